@@ -94,7 +94,8 @@ class RefHSM(object):
         continue
       if r['kind'] == 'guard':
         r = r['then'] if self.vars.get(r['var']) else {'kind': 'decline'}
-      offers.append(n)
+      if not (r['kind'] == 'hook' and r.get('mute')):
+        offers.append(n)      # (a do-nothing `handled` callback leaves no record: that offer cannot be observed)
       if r['kind'] == 'decline':
         actions.append(('decline', n))
         n = sp.parent[n]
@@ -105,7 +106,8 @@ class RefHSM(object):
         S = n
         break
       if r['kind'] == 'hook':
-        actions.append(('hook', n))
+        if not r.get('mute'):
+          actions.append(('hook', n))
         self._fx(r.get('fx'), fx)
         kind = 'handled'
         S = n
